@@ -522,6 +522,8 @@ def run(ctx, rep):
     from rules import c03_allwalks
     c03_allwalks.run(ctx, rep)
     rule_grow(ctx, rep)
+    from rules import c03_errdrop
+    c03_errdrop.run(ctx, rep, rid="R-C03-errdrop")
     # a faulty file must not be replaced in the file table by a different file that merely compares equal
     from rules.c06 import rule_types
     rule_types(ctx, rep, rid="R-C03-fileid")
